@@ -114,6 +114,14 @@ def run(ctx):
     # 1. design
     ctx.design_check("Directory", "MCDirectory_thorough.cfg" if thorough else "MCDirectory.cfg",
                      workers=10 if thorough else 6, timeout=3000, coverage=thorough)
+    # 1a. the same safety core for EVERY set of names, every identifier bound and every number of operations: TLAPS
+    # proves that it is an inductive invariant of Directory.tla (spec/proofs/DirectoryProofs.tla: Init => Ind,
+    # Ind /\ [Next]_vars => Ind', Spec => []Ind, Ind => NameHeldByAtMostOne / visible iff ready, and the action
+    # under the box of IdsStrictlyIncreasingNeverReused for every step from a state of Ind)
+    n = ctx.tlaps("DirectoryProofs", timeout=1800)
+    ctx.extra["unbounded_proof"] = ("TLAPS: %d obligations proved - the name / visibility / identifier demands of C15 hold in the "
+                                    "sequential specification for unbounded names, identifiers and histories (TLC: 3 names, ids <= 4/5); "
+                                    "the event accounting (SelectSeq over the emitted sequence) is checked by TLC only" % n)
     ctx.design_check("DirectoryRace", "MCDirectoryRace.cfg", workers=4, timeout=600)
     r = ctx.tlc("DirectoryRace", "MCDirectoryRace_nolock.cfg", workers=4, timeout=600, expect_ok=False, count=False)
     if not set(r.violated) & {"NameHeldByAtMostOne", "IdsUnique", "EventsInOrder"}:
